@@ -100,7 +100,14 @@ def order_class(seq, m):
             first.append(g)
     if first == sorted(first):
         return "in-order"
-    return "zeroth-first" if first and first[0] == 0 else "zeroth-late"
+    if first and first[0] == 0:
+        return "zeroth-first"
+    # the zeroth gram comes late; do copies of all grams arrive from then on (a receiver that drops what it cannot
+    # verify yet is still given everything once it can)?
+    own = [g for mm, g in seq if mm == m]
+    if 0 in own and set(own[own.index(0):]) == set(own):
+        return "zeroth-late-all-again"
+    return "zeroth-late"
 
 
 def judge(ctx, seq, step):
@@ -200,16 +207,19 @@ def decode_case(case):
     return size, step, [(c // 16, c % 16) for c in case[2:]]
 
 
-def clamp_case(code, curt, mi, requested, authic):
-    """a requested gram size BELOW the legal minimum: the size setter must raise it to a size that works"""
+def clamp_case(code, curt, mi, requested, authic, switched=False):
+    """a requested gram size BELOW the legal minimum: the size setter must raise it to a size that works
+    switched: the sender was built for the other header encoding (where the size may have been legal) and then switched"""
     ms.UUID.reset(0)
     memo = MEMOS[mi]
     auth = ("signed" if authic else "signed-to-plain-receiver") if code in ms.SIGNED else "unsigned"
     enc = "b2" if curt else "b64"
     tag = "%s:%s" % (auth, enc)
-    grams, eff, ex = ms.rend(code, curt, requested, memo, ms.ALICE)
+    grams, eff, ex = ms.rend(code, curt, requested, memo, ms.ALICE, switched=switched)
     lo = ms.min_size(code, curt)
-    what = "requested gram size %d (legal minimum %d) code=%s curt=%s: effective size %r" % (requested, lo, code, curt, eff)
+    if switched:
+        tag += ":encoding-switched"
+    what = ("sender built for the other encoding, then switched; " if switched else "") + "requested gram size %d (legal minimum %d) code=%s curt=%s: effective size %r" % (requested, lo, code, curt, eff)
     if eff < lo:
         v = [("size-clamp-too-low:%s" % tag, "%s is below the minimum (zeroth-gram overhead + 1)" % what)]
     elif ex is not None:
@@ -234,6 +244,12 @@ def run_job(job, tier, seed):
             if requested > 0:
                 obs, v = clamp_case(code, curt, mi, requested, authic)
                 acc.case(["clamp", requested], obs, v, sample=dict(memo=MEMOS[mi], code=code, curt=curt, requested=requested))
+        # built for the other header encoding, then switched with the .curt setter: sizes around both minimums
+        lo1 = ms.min_size(code, not curt)
+        for requested in sorted({lo0 - 1, lo0, lo1 - 1, lo1, lo1 + 1, min(lo0, lo1) + 3, max(lo0, lo1) + 7} - {0}):
+            if requested > 0:
+                obs, v = clamp_case(code, curt, mi, requested, authic, switched=True)
+                acc.case(["clamp-switched", requested], obs, v, sample=dict(memo=MEMOS[mi], code=code, curt=curt, requested=requested, switched=True))
     ml = len(MEMOS[mi].encode())
     lo = ms.min_size(code, curt)
     size = lo
@@ -242,7 +258,7 @@ def run_job(job, tier, seed):
     while True:
         ctx, viols = setup(code, curt, size, mi, authic)      # cheap; every shard rends every size so all agree where to stop
         ngr = None if ctx is None else len(ctx["grams"][0])
-        last = ref_count(code, curt, size, ml) == 1 and (ngr is None or ngr == 1) or size > lo + ml + 64
+        last = ref_count(code, curt, size, ml) == 1 and ngr == 1 or size > lo + ml + 64     # (a size at which rend fails is not the last one)
         if idx % nshard == shard:
             acc.case(encode_case(size, True, []), ("rend", size, ngr, tuple(k for k, _ in viols)), viols,
                      sample=dict(memo=MEMOS[mi], code=code, curt=curt, size=size, grams=ngr))
@@ -267,6 +283,8 @@ def replay(job, case):
     code, curt, mi, authic = job[0], job[1], job[2], job[5]
     if case and case[0] == "clamp":
         return clamp_case(code, curt, mi, int(case[1]), authic)[1]
+    if case and case[0] == "clamp-switched":
+        return clamp_case(code, curt, mi, int(case[1]), authic, switched=True)[1]
     size, step, seq = decode_case(list(case))
     ctx, viols = setup(code, curt, size, mi, authic)
     if ctx is None or not seq:
